@@ -124,9 +124,16 @@ def run(tier, seed):
     torch.manual_seed(seed)
     recs, skipped = [], []
     n_inst = 4 if tier == "quick" else 12
-    for (pname, ename, mk) in policy_matrix(tier):
+    matrix = [(a, b, c, {}) for (a, b, c) in policy_matrix(tier)]
+    # OP with a generous budget: tours end at the depot while other nodes are still affordable, so a finished row that is
+    # stepped on next to slower batch-mates has a real choice
+    from rl4co.models.zoo import AttentionModelPolicy
+    matrix.append(("AM", "op", lambda: AttentionModelPolicy(env_name="op", embed_dim=32, num_encoder_layers=2, num_heads=2),
+                   {"max_length": 4.0}))
+    for (pname, ename, mk, gpx) in matrix:
         try:
             gp = {"num_loc": 10 if tier == "quick" else rnd.choice([10, 20])}
+            gp.update(gpx)
             if ename == "mtvrp":
                 gp["variant_preset"] = "all"          # mixed variants in one batch
             env = get_env(ename, generator_params=gp)
@@ -169,7 +176,8 @@ def run(tier, seed):
                     rows[i].append({"actions": a, "reward": int(round(float(o["reward"][pos]) * 1e6)),
                                     "ll": int(round(float(o["log_likelihood"][pos]) * 1e6)), "size": len(comp), "pos": pos})
             for i in range(n_inst):
-                recs.append({"policy": pname, "env": ename + ("" if mode == "greedy" else "/multistart-best"), "inst": i,
+                recs.append({"policy": pname, "env": ename + ("" if not gpx else "(%s)" % ",".join("%s=%s" % kv for kv in gpx.items()))
+                             + ("" if mode == "greedy" else "/multistart-best"), "inst": i,
                              "solo": solos[i], "rows": rows[i], "pad": 1, "cmp_actions": mode == "greedy"})
     fails, _, st, ended = validate_records("InferTrace", recs, INV, "c14")
     viol = []
